@@ -1,5 +1,6 @@
 (* C05 oracle.  Tokens (space separated), sections separated by "/":
-     init:  F <hexpath> <hexdata> <mode>   U <umask>
+     init:  F <hexpath> <hexdata> <mode>   U <umask>      (F regular file, D directory (data = -),
+            D <hexpath> - <mode>   L <hexpath> <hexlinktext> <mode>   L symbolic link: lstat view)
      prog:  S <hexpath> <hexdata>          M <hexpath> <mode>
             T <hexpath> <hexdata>  (save only if the latest save succeeded)
             E <hexpath> <hexdata>  (save only if the latest save failed)
@@ -11,7 +12,8 @@
      state / INIT / OPS              -> "F ..." listing of the file system after OPS
      fault / INIT / PROG / k short e -> "<trace with results> / <stderr entries> / <listing>"  (k = -1: no fault)
      snap / INIT / PROG / CUR        -> "ok" | "bad <hexpath>"   (CUR in init syntax: a snapshot of a real tree)
-     tmpfree / INIT / PROG           -> "1" | "0" *)
+     tmpfree / INIT / PROG           -> "1" | "0"
+     foreign / INIT / PROG / CUR / c -> "ok" | "bad <hexpath>"   (Spec.CrashSpec.foreign_bad; c = 1 complete run, 0 crash snapshot) *)
 let rec split_sections (toks : string list) : string list list =
   let rec go cur acc = function
     | [] -> List.rev (List.rev cur :: acc)
@@ -21,8 +23,9 @@ let rec split_sections (toks : string list) : string list list =
 
 let parse_init (toks : string list) : state =
   let rec go fs um = function
-    | "F" :: p :: d :: m :: rest ->
-      go ((bytes_of_hex p, { f_data = bytes_of_hex d; f_mode = n_of_int (int_of_string m) }) :: fs) um rest
+    | (("F" | "D" | "L") as k) :: p :: d :: m :: rest ->
+      let kind = (match k with "F" -> KReg | "D" -> KDir | _ -> KSymlink) in
+      go ((bytes_of_hex p, { f_kind = kind; f_data = bytes_of_hex d; f_mode = n_of_int (int_of_string m) }) :: fs) um rest
     | "U" :: m :: rest -> go fs (n_of_int (int_of_string m)) rest
     | [] -> { st_fs = List.rev fs; st_fds = []; st_umask = um }
     | _ -> failwith "bad init" in
@@ -72,7 +75,7 @@ let parse_errno (s : string) : errno =
   | _ -> failwith "bad errno"
 
 let show_fs (m : fsmap) : string =
-  String.concat " " (List.map (fun (p, f) -> Printf.sprintf "F %s %s %d" (hex_of_bytes p) (hex_of_bytes f.f_data) (int_of_n f.f_mode)) m)
+  String.concat " " (List.map (fun (p, f) -> Printf.sprintf "%s %s %s %d" (match f.f_kind with KReg -> "F" | KDir -> "D" | KSymlink -> "L") (hex_of_bytes p) (hex_of_bytes f.f_data) (int_of_n f.f_mode)) m)
 
 let show_kind (k : errkind) : string =
   match k with CannotWrite -> "write" | CannotOverwrite -> "overwrite" | CannotClearExec -> "chmod"
@@ -97,6 +100,10 @@ let handle (args : string list) : string =
   | [["snap"]; init; prog; cur] ->
     let i = (parse_init init).st_fs in
     (match first_bad i i (parse_prog prog) (parse_init cur).st_fs with
+     | None -> "ok"
+     | Some p -> "bad " ^ hex_of_bytes p)
+  | [["foreign"]; init; prog; cur; [c]] ->
+    (match foreign_bad (c = "1") (parse_init init).st_fs (parse_prog prog) (parse_init cur).st_fs with
      | None -> "ok"
      | Some p -> "bad " ^ hex_of_bytes p)
   | [["tmpfree"]; init; prog] -> if tmp_freeb (parse_init init).st_fs (parse_prog prog) then "1" else "0"
